@@ -4,11 +4,13 @@ import json
 import random
 import sys
 
-from common import (Build, MachineryError, Verdict, graph_paths, join_obs,
+from common import (one_case, Build, MachineryError, Verdict, graph_paths, join_obs,
                     make_cfg, run_children, run_tlc, seed, shard,
                     split_behaviours, tla_bool, NCPU)
 
 INV = {
+    'C10': ['TypeOK', 'ImpliedIsReach', 'SroValid', 'SroIsC3', 'MemoSound',
+            'AccessorsAgree', 'FreshEquiv'],
     'C02': ['TypeOK', 'ImpliedIsReach', 'SroSetIsReach', 'DepsExact',
             'FreshEquiv'],
     'C03': ['TypeOK', 'SroValid', 'SroIsC3', 'StrictIff', 'FreshEquiv'],
@@ -105,9 +107,40 @@ def replay(build, v, pid, mode, N, isiface, rootx, cases, budget):
             sig = '%s %s %s expected=%s got=%s ctx=%s' % (
                 pid, m['impl'], m['what'], json.dumps(m['expected']),
                 json.dumps(m['got']), json.dumps(m['ctx'], sort_keys=True))
-            v.violation(sig, m)
+            v.violation(sig, m, one_case('replay_specgraph.py', impl, job,
+                                         m))
     v.cov['traces_validated_against_impl'] += 2 * len(cases)
     return cases
+
+
+def run_sim(pid, tier, v, build):
+    """random long behaviours over a larger universe"""
+    if True:
+        (N, maxb, isif, defc, rootx, depth, wg, num) = SIM[tier]
+        cfg = make_cfg(build.dir, 'sim', {
+            'N': N, 'MaxB': maxb, 'MaxDepth': depth + 1,
+            'IsIface': '<-' + isif, 'DefChoices': '<-' + defc,
+            'WithGet': tla_bool(wg), 'RootExplicit': tla_bool(rootx),
+            'PinnedC03': 'FALSE', 'PinnedC15': 'FALSE'},
+            invariants=INV[pid] + ['DumpObs'], view='View',
+            action_constraint='Emit')
+        res = run_tlc('MC_SpecGraph_hist', cfg, simulate=num, depth=depth,
+                      seed_=seed(), scratch=build.dir)
+        join_obs(res)
+        name = 'simulate N=%d depth=%d num=%d' % (N, depth, num)
+        v.add_tlc(res, name)
+        if res.violated:
+            raise MachineryError('model-level violation of %s in %s:\n%s' % (
+                res.violated, name, '\n'.join(res.trace[:40])))
+        cases = []
+        for beh in split_behaviours(res.lines):
+            steps = [{'act': x['act'], 'obs': x['obs'],
+                      'bases': x['to']['bases']} for x in beh]
+            cases.append({'defA': beh[0]['from']['defA'], 'steps': steps})
+        replay(build, v, pid, 'hist', N, isif, rootx, cases, 10 ** 9)
+        if cases:
+            v.sample({'config': name,
+                      'behaviour': [s['act'] for s in cases[0]['steps']]})
 
 
 def main(pid, tier):
@@ -193,32 +226,7 @@ def main(pid, tier):
                 exhaustive = False
             v.sample({'config': name,
                       'behaviour': [s['act'] for s in cases[-1]['steps']]})
-        # random long behaviours over a larger universe
-        (N, maxb, isif, defc, rootx, depth, wg, num) = SIM[tier]
-        cfg = make_cfg(build.dir, 'sim', {
-            'N': N, 'MaxB': maxb, 'MaxDepth': depth + 1,
-            'IsIface': '<-' + isif, 'DefChoices': '<-' + defc,
-            'WithGet': tla_bool(wg), 'RootExplicit': tla_bool(rootx),
-            'PinnedC03': 'FALSE', 'PinnedC15': 'FALSE'},
-            invariants=INV[pid] + ['DumpObs'], view='View',
-            action_constraint='Emit')
-        res = run_tlc('MC_SpecGraph_hist', cfg, simulate=num, depth=depth,
-                      seed_=seed(), scratch=build.dir)
-        join_obs(res)
-        name = 'simulate N=%d depth=%d num=%d' % (N, depth, num)
-        v.add_tlc(res, name)
-        if res.violated:
-            raise MachineryError('model-level violation of %s in %s:\n%s' % (
-                res.violated, name, '\n'.join(res.trace[:40])))
-        cases = []
-        for beh in split_behaviours(res.lines):
-            steps = [{'act': x['act'], 'obs': x['obs'],
-                      'bases': x['to']['bases']} for x in beh]
-            cases.append({'defA': beh[0]['from']['defA'], 'steps': steps})
-        replay(build, v, pid, 'hist', N, isif, rootx, cases, 10 ** 9)
-        if cases:
-            v.sample({'config': name,
-                      'behaviour': [s['act'] for s in cases[0]['steps']]})
+        run_sim(pid, tier, v, build)
     v.cov['exhaustive'] = exhaustive
     return v.finish()
 
